@@ -146,3 +146,73 @@ def _lifecycle(collisions, finalized, early_unlink, copy_made):
         return False  # properly released objects are never reported as leaked
     # each name unlinked exactly once overall
     return all(log.count("unlinked", x) == 1 for x in names)
+
+
+def check_kill_points(kill_after: int, early_unlink: bool) -> bool:
+    """
+    pre: 2 <= kill_after <= 5
+    post: _
+    """
+    # One Lock is created, then collected; the owning process is SIGKILLed after `kill_after`
+    # externally visible effects (1 = semaphore created in the kernel, 2 = REGISTER sent,
+    # 3/4 = the two steps of the finalizer; 5 = never). Effects after the kill do not happen.
+    # (kill_after == 1, death between sem_open and the REGISTER message, is finding F7.)
+    kill_after = _conc(kill_after - 2, 3) + 2
+    log = Log()
+    kernel = set()
+    msgs = []
+    finalizers = []
+    effects = [0]
+
+    def alive():
+        return effects[0] < kill_after
+
+    def effect():
+        effects[0] += 1
+
+    def unlink(name):
+        if not alive():
+            return
+        if name not in kernel:
+            raise FileNotFoundError(name)
+        kernel.discard(name)
+        effect()
+
+    def send(cmd, nm, t):
+        if alive():
+            msgs.append((cmd, nm, t))
+            effect()
+
+    class CS(_CSem):
+        def __init__(self, *a):
+            _CSem.__init__(self, kernel, [0], log, *a)
+            effect()
+
+    saved = (sy._SemLock, sy.sem_unlink, sy.resource_tracker, sy.util, sy.SemLock._rand)
+    sy.SemLock._rand = iter("name%d" % j for j in range(100))
+    sy._SemLock = CS
+    sy.sem_unlink = unlink
+    sy.resource_tracker = NS(register=lambda nm, t: send("REGISTER", nm, t),
+                             unregister=lambda nm, t: send("UNREGISTER", nm, t))
+    sy.util = NS(debug=lambda *a: None, register_after_fork=lambda o, f: None,
+                 Finalize=lambda obj, cb, args=(), exitpriority=None: finalizers.append((cb, args)))
+    try:
+        lk = sy.Lock()
+        name = lk._semlock.name
+        if early_unlink and alive():
+            kernel.discard(name)
+        cb, args = finalizers[0]
+        try:
+            cb(*args)  # the object is collected: real SemLock._cleanup
+        except FileNotFoundError:
+            return False
+    finally:
+        sy._SemLock, sy.sem_unlink, sy.resource_tracker, sy.util, sy.SemLock._rand = saved
+    # the process tree is gone: the tracker reads what was sent, then EOF
+
+    def sweep_unlink(nm):
+        if nm not in kernel:
+            raise FileNotFoundError(nm)
+        kernel.discard(nm)
+    run_main([_line(c, nm, t) for c, nm, t in msgs], cleanup={"semlock": sweep_unlink})
+    return not kernel  # whatever the kill point, the name does not outlive the tree
